@@ -20,6 +20,7 @@ package standard
 
 import (
 	"net"
+	"runtime"
 	"strconv"
 
 	"github.com/cloudwego/hertz/pkg/network"
@@ -66,4 +67,22 @@ func DumpForVerif(nc network.Conn) string {
 		e = c.err.Error()
 	}
 	return "in:" + dump(c.inputBuffer) + " out:" + dump(c.outputBuffer) + " caches=" + strconv.Itoa(len(c.caches)) + " max=" + strconv.Itoa(c.maxSize) + " err=" + e
+}
+
+// ReleaseForVerif returns the buffers of a Conn created by NewConnForVerif to their pools right away
+// instead of waiting for the finalizers (an exhaustive harness creates millions of connections).
+func ReleaseForVerif(nc network.Conn) {
+	c, ok := nc.(*Conn)
+	if !ok {
+		return
+	}
+	c.releaseCaches()
+	if c.inputBuffer != nil {
+		runtime.SetFinalizer(c.inputBuffer, nil)
+		c.inputBuffer.release()
+	}
+	if c.outputBuffer != nil {
+		runtime.SetFinalizer(c.outputBuffer, nil)
+		c.outputBuffer.release()
+	}
 }
